@@ -178,7 +178,7 @@ def main(argv=None):
     results = _run_pool(jobs, _worker, a.jobs)
     # ---- aggregate
     agg = {"paths": 0, "decisions": 0, "queries": 0, "solver_s": 0.0, "unknown": 0, "realised": 0, "width_exceeded": 0,
-           "checks": 0, "infeasible": 0, "budget": 0}
+           "checks": 0, "infeasible": 0, "budget": 0, "xcheck_agree": 0, "xcheck_unknown": 0, "xcheck_disagree": 0, "xcheck_s": 0.0}
     errors, inconclusive, viols, samples, covered, sites = [], [], [], [], set(), {}
     extra = {}
     for r in results:
@@ -307,6 +307,9 @@ def main(argv=None):
                 "solver_queries": agg["queries"], "solver_seconds": round(agg["solver_s"], 2),
                 "assertions_evaluated": agg["checks"], "assertion_sites": sites,
                 "realised_paths": agg["realised"], "solver_unknown": agg["unknown"], "width_exceeded": agg["width_exceeded"],
+                "second_solver": {"solver": "z3 4.8.12 binary on the SMT-LIB2 print of sampled 'assertion holds' queries",
+                                  "agree_unsat": agg["xcheck_agree"], "timeout_or_unknown": agg["xcheck_unknown"],
+                                  "seconds": round(agg["xcheck_s"], 2), "disagreements_or_rejected": agg["xcheck_disagree"]},
                 "bounds": meta.bounds(a.tier) if hasattr(meta, "bounds") else {},
                 "functions_executed_in_repo": sorted(covered),
                 "stubs_and_models": getattr(meta, "MODELS", []),
